@@ -17,7 +17,7 @@ PROPERTY = "C06"
 
 SMALL = [
     wl("chain3"), wl("diamond"), wl("multitask"), wl("fail_mid"), wl("raise_mid"), wl("continue_on_fail"),
-    wl("skip_stage"), wl("poll", 1), wl("transient", 1, True), wl("or_split_join"), wl("synthetic"), wl("synthetic_raise"),
+    wl("skip_stage"), wl("poll", 1), wl("transient", 1, True), wl("or_split_join"), wl("synthetic"), wl("synthetic_raise"), wl("synthetic2_failpre"), wl("declared_after_fc"), wl("synthetic2_multitask"),
     wl("synthetic", True), wl("suspend_gate"), wl("jump_self", 1), wl("jump_cycle", 2, 2),
     wl("jump_forward_diamond", 1), wl("mutex2"), wl("choice2"), wl("jump_self", 3, 1), wl("jump_cycle", 2, 3, 1),
     wl("jump_forward_multitask", 1), wl("multitask_fail", 0), wl("multitask_fail", 1),
